@@ -201,22 +201,23 @@ def one(rep, prog, cfg):
                     defs = [b2 for b2, i2, s2 in co.stmts() if s2["k"] == "assign" and s2["place"]["l"] == r and not s2["place"]["p"]]
                     if not defs or not all(g.dom(d, bb) for d in defs):
                         continue
-                    consumed_after = False
-                    for b3 in reach(g.succs, [bb]):
+                    # still alive at bb: no hand-over of this responder (oneshot send / stored as the in-flight one)
+                    # lies on a path that leads to bb
+                    consumed_before = False
+                    for b3 in co.reachable():
+                        if b3 == bb:
+                            continue
+                        hit = False
                         t3 = co.blocks[b3]["t"]
                         if t3["k"] == "call" and ONESEND in callee_names(t3) and resp_root(co, op_local(t3["args"][0])) == r:
-                            consumed_after = True
+                            hit = True
                         for s3 in co.blocks[b3]["s"]:
                             if s3["k"] == "assign" and s3["rv"]["k"] == "agg" and s3["rv"].get("variant") == "WaitingForCommandReply" \
                                     and resp_root(co, op_local(s3["rv"]["ops"][0])) == r:
-                                consumed_after = True
-                    consumed_before = False
-                    for b3 in co.reachable():
-                        if b3 != bb and g.dom(b3, bb):
-                            t3 = co.blocks[b3]["t"]
-                            if t3["k"] == "call" and ONESEND in callee_names(t3) and resp_root(co, op_local(t3["args"][0])) == r:
-                                consumed_before = True
-                    if consumed_after and not consumed_before:
+                                hit = True
+                        if hit and bb in reach(g.succs, [b3]):
+                            consumed_before = True
+                    if not consumed_before:
                         in_scope.append(r)
                 kinds = {s[0] for s in bs}
                 if in_scope:
